@@ -66,7 +66,7 @@ def _initfiles_by_evaluation(ctx, rep, dirbase, pi) -> bool:
         return []
 
     w = _W(prog, ctx.resolver, call_value=cv, exact_loops=True, unroll=len(names) + 3, assumptions={"self.selectorbase": _C("/SB")}, sticky={"self.selectorbase"},
-           inline=lambda fn, t, d: d < 3 and t.bound_cls is not None and fn.name not in ("prep_initfiles_canaddfile", "getselector"))
+           inline=lambda fn, t, d: d < 3 and (t.bound_cls is not None or (fn.cls is None and fn.module.name.startswith("pygopherd.handlers"))) and fn.name not in ("prep_initfiles_canaddfile", "getselector"))
     holder["w"] = w
     try:
         paths = w.run(pi, dirbase, facts={"self.selectorbase": _C("/SB")})
@@ -115,7 +115,7 @@ def _initfiles_by_evaluation(ctx, rep, dirbase, pi) -> bool:
 
     holder2 = {}
     w2 = _W(prog, ctx.resolver, call_value=cv2, exact_loops=True, unroll=len(names) + 3, assumptions={"self.selectorbase": _C("/SB")}, sticky={"self.selectorbase"},
-            inline=lambda fn, t, d: d < 3 and t.bound_cls is not None and fn.name not in ("prep_initfiles_canaddfile", "getselector"))
+            inline=lambda fn, t, d: d < 3 and (t.bound_cls is not None or (fn.cls is None and fn.module.name.startswith("pygopherd.handlers"))) and fn.name not in ("prep_initfiles_canaddfile", "getselector"))
     holder2["w"] = holder["w"] = w2
     try:
         paths2 = w2.run(pi, dirbase, facts={"self.selectorbase": _C("/SB")})
@@ -602,7 +602,7 @@ def ignore_filter_obligations(ctx, rep, rule, dirbase):
                 cand = base + "/" + name
                 facts = {"self.selector": _C(sel), "self.selectorbase": _C(base)}
                 w = _W(prog, ctx.resolver, exact_loops=True, unroll=4, assumptions=dict(facts), max_paths=4000,
-                       inline=lambda fn, t, d: d < 2 and t.bound_cls is not None)
+                       inline=lambda fn, t, d: d < 2 and (t.bound_cls is not None or (fn.cls is None and fn.module.name.startswith("pygopherd.handlers"))))
                 outs = set()
                 try:
                     for p in w.run(f, dirbase, env={f.params[1]: _C(patt), f.params[2]: _C(cand), f.params[3]: _C(name)}, facts=dict(facts)):
